@@ -49,9 +49,13 @@ BASES = [
     "a <=> b\nc === d\n!e\n-f ** 2\n",
     "{|x| x}(1)\n  |.S\n  |.p\n\n# eof comment\n",
     "x => y\nz += 1\n",
+    # non-ASCII text: a multi-byte character must survive every split of the bytes into reads
+    "s := \"日本語✓é\"\ns.p\n",
+    "# コメント ✓ comment\nx := \"é\"\n# ключ\nx.len.p\n",
+    "{\n  a: \"ü\",\n  # 注\n  b: `生✓`,\n}\n",
 ]
 
-CHUNKS = [1, 2, 3, 7, 1023, 1024, 2047, 2048, 2049, 0]          # 0 = whole (all that is requested)
+CHUNKS = [1, 2, 3, 7, 1023, 1024, 2047, 2048, 2049, 0, 4095, 4096, 4097, 5]          # 0 = whole (all that is requested)
 
 
 def sizes_around():
@@ -414,6 +418,11 @@ def e2e(chk):
          [(1, "{\n"), (90, "  # a line of a long comment block ....\n"), (1, "  a: 1,\n}\n")], "{a: 1}", 3600),
         ("token", "string", [(1, 's := "'), (3000, "a"), (1, '"\n')], '(s := "%s")' % ("a" * 3000), 3000),
     ]
+    # a multi-byte character placed at every offset around the 4 KiB and 8 KiB marks
+    for base in (4096, 8192):
+        for n in range(base - 12, base + 4):
+            corpus.append(("token", "utf8 string after %d bytes of comment" % n,
+                           [(1, "#"), (n - 2, "c"), (1, "\n"), (1, 'x := "日本語✓é"\n')], '(x := "日本語✓é")', n))
     for kind, what, ps, wanted, size in corpus:
         vs = [{"chunk": c} for c in CHUNKS]
         ps = norm_pieces(ps)
